@@ -31,7 +31,7 @@ def cases(tier, seed):
     rng = random.Random('C01|%d' % seed)
     T = tier == 'thorough'
     cs = []
-    kinds = ['gauss', 'lowrank', 'superdiag', 'superdiag', 'graded', 'lowrank', 'zero', 'superdiag_int']
+    kinds = ['gauss', 'lowrank', 'superdiag', 'superdiag_flat', 'graded', 'lowrank', 'zero', 'superdiag_int']
     for i in range(700 if not T else 12000):
         d = rng.choice([1, 2, 2, 3, 3, 3, 4, 4, 5, 6])
         pool = (1, 2, 3, 4, 5, 7) if d <= 4 else (1, 2, 3, 4)
@@ -60,6 +60,12 @@ def cases(tier, seed):
         if kind.startswith('superdiag'):
             n = rng.choice((3, 4)) if d <= 4 else 3
             N = [n] * d
+            if i % 3 == 1 and d >= 3:
+                # interior / boundary singleton modes between the real ones
+                for _ in range(rng.randint(1, 2)):
+                    N[rng.randrange(d)] = 1
+                if sum(1 for m in N if m > 1) < 2:
+                    N[0], N[-1] = n, n
         else:
             N = [rng.choice((2, 3, 4)) for _ in range(d)]
         c = {'gen': 'breakpoints', 'kind': kind, 'N': N, 'dtype': ['f64', 'f64', 'c128', 'f32'][i % 4] if kind != 'superdiag_int' else 'f64', 'source': 'torch',
@@ -100,7 +106,8 @@ def make_input(case, g):
         A = dn.dense_of_cores(gens.make_cores(modes, R, dt, 'gauss', g, scales=scales)).to(dt)
     else:
         rr = random.Random(case['seed'])
-        r = max(1, min(modes)) if d > 0 else 1
+        core_modes = [m for m in modes if m > 1] or [1]
+        r = max(1, min(core_modes))
         if kind in ('superdiag_int', 'superdiag_int_rot'):
             s = sorted([float(rr.randint(1, 6)) for _ in range(r)], reverse=True)
         elif kind == 'superdiag_flat':
@@ -109,7 +116,9 @@ def make_input(case, g):
         else:
             q = rr.uniform(0.05, 0.7)
             s = [q ** j for j in range(r)]
-        A = gens.superdiag(modes, s, g, dtype=dn.up(dt), rotate=(kind not in ('superdiag_int',))).to(dt)
+        # the superdiagonal tensor lives on the modes larger than 1; singleton modes are inserted afterwards (the bonds next to them
+        # see the same spectrum again, so every bond - also those adjacent to singleton modes - is driven to its truncation edge)
+        A = gens.superdiag(core_modes, s, g, dtype=dn.up(dt), rotate=(kind not in ('superdiag_int',))).to(dt).reshape(modes)
     if case['shape'] == 'operator':
         # build the M+N array whose interleaved image is A: A has modes (m_k n_k)
         dd = len(N)
